@@ -6,7 +6,6 @@ import OmplModel.Proofs.DubinsReach
 import OmplModel.Proofs.RSBack
 import OmplModel.Proofs.RSFive
 import OmplModel.Proofs.RSFiveAll
-import OmplModel.Proofs.RSReach
 import OmplModel.Props.C14RS
 import OmplModel.Props.C14D
 /-!
@@ -558,30 +557,5 @@ example : ∃ L Q, some (L, Q) ∈ candsCCSCC (-2 : ℝ) (-2) 0 := by
   unfold candsCCSCC four
   rw [LpRmSLmRp_example]
   exact List.mem_cons_self
-
-open OmplModel.RS in
-/-- [EX] **The path `reedsShepp(x, y, φ)` returns reaches the goal**, for every family except CCCC: if the
-returned word is not of type 2 or 3 (the four-arc words of formulas 8.7 / 8.8, whose `tauOmega` identities
-are not proved), then driven from the origin it ends at `(x, y)` with heading `φ` modulo 2π.  This covers
-CSC, CCC, CCSC (with their timeflip / reflect / backwards images) and the five-segment CCSCC family.
-
-Full statement (not proved, hence `_partial`): the same without the hypothesis on the type. -/
-theorem rs_reedsShepp_reaches_except_CCCC_partial (x y phi : ℝ) (P : RSPath ℝ)
-    (hP : reedsShepp x y phi = some P) (hty : P.ty ≠ 2 ∧ P.ty ≠ 3) : Reaches P x y phi := by
-  obtain ⟨L, hm⟩ := (reedsShepp_inv x y phi).1 P hP
-  unfold allCands at hm
-  simp only [List.mem_append] at hm
-  rcases hm with (((h | h) | h) | h) | h
-  · exact CSC_candidates_reach x y phi L P h
-  · exact CCC_all_candidates_reach x y phi L P h
-  · rcases candsCCCC_ty h with h2 | h2
-    · exact absurd h2 hty.1
-    · exact absurd h2 hty.2
-  · exact CCSC_all_candidates_reach x y phi L P h
-  · exact CCSCC_candidates_reach x y phi L P h
-
--- non-vacuity: a returned path of a type other than 2, 3 exists (the straight line to (3, 0))
-open OmplModel.RS in
-example : ∃ P : RSPath ℝ, reedsShepp (3 : ℝ) 0 0 = some P := reedsShepp_3_0_0
 
 end OmplModel.Props.C14
